@@ -280,6 +280,11 @@ class Exec(ExprMixin, CallMixin):
         v = self.eval(st.value, fr)
         if isinstance(v, VList) and v.items == [] and v.elem is None:
             v.elem = self.elem_type_from_annotation(st.annotation, fr)
+        if ast.unparse(st.annotation) == "set[str]" and isinstance(v, VConst) and v.py == frozenset():
+            # a growing set of strings: modelled by the sequence of added elements; only `x in s`, `s.add(x)` and
+            # any()/all() over it are allowed (len / iteration / indexing would observe duplicates and order)
+            v = VList(Str, items=[])
+            v.is_set = True
         self.assign_target(st.target, self._adapt_local(st.target, v, fr), fr)
 
     def st_AugAssign(self, st, fr):
@@ -540,6 +545,8 @@ class Exec(ExprMixin, CallMixin):
                 self.node_child_fact(origin, hv)
 
     def concrete_items(self, it):
+        if getattr(it, "is_set", False):
+            raise Unsupported("iteration over a set (order and multiplicity are not modelled; use added(s) in invariants)")
         if isinstance(it, VList) and it.items is not None:
             return list(it.items)
         if isinstance(it, VTuple):
@@ -616,10 +623,13 @@ class Exec(ExprMixin, CallMixin):
             self.on_fresh(nv)
             fr.assign(name, nv)
         for path in sorted(mutated | attrs):
+            self.merge_depth += 1  # looking the value up is not an execution step: no safety obligations / assumptions
             try:
                 cur = self.eval(ast.parse(path, mode="eval").body, fr)
             except (Unsupported, RaiseSig, Infeasible):
                 continue
+            finally:
+                self.merge_depth -= 1
             if isinstance(cur, VList) and cur.elem is None and isinstance(ltypes.get(path), SeqOf):
                 cur.elem = ltypes[path].elem  # `xs = []` before the loop: element type from the contract's types
             self.havoc_value(cur, path)
